@@ -23,7 +23,8 @@ import warnings
 from harness import cm, pool, traces
 from harness.core import Ctx, MachineryError
 
-PKG = "/repo/xmlschema"
+import os
+PKG = os.environ.get("VERIF_REPO", "/repo") + "/xmlschema"
 CFG = "SPECIFICATION Spec\nCONSTRAINT Mark\nPOSTCONDITION Post\nCHECK_DEADLOCK FALSE\n"
 
 
